@@ -328,6 +328,14 @@ func funcKey(f *ssa.Function) string {
 		}
 	}
 	if f.Parent() != nil {
+		// closures: pkg.parent$N (go/ssa already names them parent$N)
+		pp := f.Parent()
+		for pp.Parent() != nil {
+			pp = pp.Parent()
+		}
+		if pp.Pkg != nil {
+			return pp.Pkg.Pkg.Name() + "." + f.Name()
+		}
 		return funcKey(f.Parent()) + "$" + f.Name()
 	}
 	return pkg + "." + f.Name()
@@ -810,6 +818,9 @@ func (x *Exec) Verify(f *ssa.Function, c *FuncContract) {
 	for _, fv := range f.FreeVars {
 		v := x.freshVal(st, fv.Type(), "fv!"+fv.Name())
 		fr.regs[fv] = v
+		// captured variables are visible to the contract as free_<name> (the pointer to the variable)
+		params["free_"+fv.Name()] = v
+		ptypes["free_"+fv.Name()] = fv.Type()
 	}
 	x.preEnv = &Env{x: x, st: pre, vars: params, types: ptypes, pkg: f.Pkg.Pkg, isPre: true, facts: st}
 	// program-wide invariants of package-level variables (established by package
@@ -1258,17 +1269,26 @@ func (x *Exec) checkClauses(st *State, env *Env, cl []Clause, kind, prefix, site
 	for i, e := range cl {
 		parts := splitAnd(e.Expr)
 		for _, part := range parts {
-			t, err := env.evalBool(part)
+			nts, err := env.expandConjuncts(part, 0)
 			if err != nil {
 				x.errors = append(x.errors, fmt.Sprintf("%s: %s: %v", e.Where, kind, err))
 				continue
 			}
-			name := fmt.Sprintf("%s/%s:%s@%s", prefix, kind, conjName(e, i, part, len(parts)), site)
-			if isolate {
-				sub := st.clone()
-				x.emit(sub, name, kind, t, nil)
-			} else {
-				x.emit(st, name, kind, t, nil)
+			for _, nt := range nts {
+				label := conjName(e, i, part, len(parts))
+				if len(nts) > 1 {
+					label = nt.label
+					if e.Label != "" {
+						label = e.Label + "." + nt.label
+					}
+				}
+				name := fmt.Sprintf("%s/%s:%s@%s", prefix, kind, label, site)
+				if isolate {
+					sub := st.clone()
+					x.emit(sub, name, kind, nt.t, nil)
+				} else {
+					x.emit(st, name, kind, nt.t, nil)
+				}
 			}
 		}
 	}
@@ -1414,6 +1434,12 @@ func (x *Exec) envFor(st *State, fr *Frame) *Env {
 		if tv, ok := x.preEnv.vars["this"]; ok {
 			vars["this"] = tv
 			tys["this"] = x.preEnv.types["this"]
+		}
+		for k, v := range x.preEnv.vars {
+			if strings.HasPrefix(k, "free_") {
+				vars[k] = v
+				tys[k] = x.preEnv.types[k]
+			}
 		}
 	}
 	return &Env{x: x, st: st, vars: vars, types: tys, pkg: fr.fn.Pkg.Pkg, old: x.preEnv, facts: st, heads: fr.heads}
